@@ -370,7 +370,7 @@ impl Property for C06 {
         scenario_strategy()
     }
     fn cases(tier: Tier) -> u32 {
-        tier.pick(5_000, 120_000)
+        tier.pick(30_000, 200_000)
     }
     fn exhaustive(_tier: Tier, sink: &mut dyn FnMut(Scenario)) -> Vec<String> {
         for p in fixed_profiles() {
@@ -394,7 +394,7 @@ impl Property for C07 {
         scenario_strategy()
     }
     fn cases(tier: Tier) -> u32 {
-        tier.pick(5_000, 120_000)
+        tier.pick(30_000, 200_000)
     }
     fn exhaustive(_tier: Tier, sink: &mut dyn FnMut(Scenario)) -> Vec<String> {
         for p in fixed_profiles() {
